@@ -463,7 +463,8 @@ fn named_part(ctx: &Ctx, job: usize, iters: u64) -> Stats {
     // same monitor over BDDEnv<NamedSymbol> (labels compare by id; names are only display)
     let mut st = Stats::new();
     let mut rng = Rng::stream(ctx.seed, "C03.named", job as u64);
-    let ids: Vec<usize> = vec![0, 2, 3, 7, 40, usize::MAX];
+    // ids that coincide when narrowed to 8 / 16 / 32 bits (0 ~ 256 ~ 2^32, 2 ~ 65538 ~ 2^32 + 2)
+    let ids: Vec<usize> = vec![0, 2, 256, 65_538, 1 << 32, (1 << 32) + 2, usize::MAX];
     let syms: Vec<NamedSymbol> = ids.iter().enumerate().map(|(i, id)| NamedSymbol { name: Rc::new(format!("n{}", i)), id: *id }).collect();
     let n = syms.len() as u32;
     let idx = |s: &NamedSymbol| syms.iter().position(|x| x.id == s.id).map(|p| p as u32);
@@ -491,7 +492,7 @@ fn named_part(ctx: &Ctx, job: usize, iters: u64) -> Stats {
         let op = *rng.pick(&BIN_OPS);
         st.evals += 1;
         st.bump("named_symbol_calls");
-        let case = json!({"kind": "named-binary", "op": op, "a": a.2.hex(), "b": b.2.hex()});
+        let case = json!({"kind": "named-binary", "op": op, "a": a.2.hex(), "b": b.2.hex(), "seed": ctx.seed, "job": job, "iters": iters});
         match guarded(|| apply_engine(&env, op, &a.0, &b.0)) {
             Ok(r) => {
                 let want = apply_ref(op, &a.2, &b.2);
@@ -577,7 +578,7 @@ pub fn run(ctx: &Ctx) -> (Stats, Spec) {
     st.merge(crate::report::merge_all(parts));
 
     let spec = Spec {
-        rule: "exhaustive: every ordered pair (triple for ite) of Boolean functions over 3 (2) variables in every argument position, under 5 label configurations (adjacent, interleaved-disjoint, extreme indices incl. usize::MAX, overlapping, disjoint-nested); random: operands over 4-6 sparse labels built by random routes with overlapping/nested/disjoint supports, BDDEnv<usize>, BDDEnv<NamedSymbol> and an environment over a symbol type whose Hash writes nothing (every same-shape pair of diagrams collides); rounds with operands NOT built by the environment (plain unshared diagrams, dropped after use, thousands of rounds on one environment). distinct = (connective, operand tables, configuration); non-trivial = every operand non-constant. MANY VARIABLES: the same judgement on environments with 65-200 variables (more than a machine word of them), where operands are random DNFs and results are compared pointwise on 48 sampled assignments per case (biased towards the operands' cubes) and walked for order / reduction.".into(),
+        rule: "exhaustive: every ordered pair (triple for ite) of Boolean functions over 3 (2) variables in every argument position, under 5 label configurations (adjacent, interleaved-disjoint, extreme indices incl. usize::MAX, overlapping, disjoint-nested); random: operands over 4-6 sparse labels built by random routes with overlapping/nested/disjoint supports, BDDEnv<usize>, BDDEnv<NamedSymbol> (ids that coincide when narrowed to 8, 16 or 32 bits) and an environment over a symbol type whose Hash writes nothing (every same-shape pair of diagrams collides); rounds with operands NOT built by the environment (plain unshared diagrams, dropped after use, thousands of rounds on one environment). distinct = (connective, operand tables, configuration); non-trivial = every operand non-constant. MANY VARIABLES: the same judgement on environments with 65-200 variables (more than a machine word of them), where operands are random DNFs and results are compared pointwise on 48 sampled assignments per case (biased towards the operands' cubes) and walked for order / reduction.".into(),
         assumptions: vec![
             "operands are diagrams produced by the same environment over a common variable order (the statement's precondition)".into(),
             "the value of a diagram is read by following T/F edges from the root (tt_of_bdd), independent of any engine operation".into(),
@@ -602,6 +603,13 @@ pub fn replay(_ctx: &Ctx, _monitor: &str, case: &Value, st: &mut Stats) {
         return;
     }
     let kind = case.get("kind").and_then(|k| k.as_str()).unwrap_or("");
+    if kind == "named-binary" {
+        let mut c2 = _ctx.clone();
+        c2.seed = case.get("seed").and_then(|j| j.as_u64()).unwrap_or(_ctx.seed);
+        let job = case.get("job").and_then(|j| j.as_u64()).unwrap_or(0) as usize;
+        st.merge(named_part(&c2, job, case.get("iters").and_then(|j| j.as_u64()).unwrap_or(15_000)));
+        return;
+    }
     let uni: Vec<usize> = case
         .get("universe")
         .and_then(|u| u.as_array())
